@@ -93,10 +93,141 @@ def gen_source_unit(sc, sidecar_path, repo):
             'fn_names': [fn_name], 'twin_names': [fn_name + '_twin']}
 
 
+def gen_multi_unit(sc, sidecar_path, repo):
+    """operators with several upstream observers (C03): one or more `new_observer` calls; every handler has an explicit contract
+    over a ghost history `h` of tagged input events.  Skeleton fact: every observer is created (registered with the
+    controller) before the first inner_subscribe."""
+    op = sc['op']
+    src_path = os.path.join(repo, sc['file'])
+    if not os.path.exists(src_path):
+        raise UnitError('anchor', 'file %s missing' % sc['file'])
+    src = open(src_path).read()
+    try:
+        sk = rxprep.analyse(src, sc.get('fn', 'execute'), sc.get('impl'))
+    except (AnchorLost, LexError) as e:
+        raise UnitError('anchor', str(e))
+    observers = sc['observer']
+    captures = sc.get('captures', {})
+    cells = sc.get('cells', {})
+    tout = sc.get('out', 'Item')
+    hist_t = sc['hist']
+    sk_problems = []
+    if sk.sctl is None or sk.sctl_arg != sk.create_param:
+        sk_problems.append('StreamController::new(<create-closure parameter>) not found')
+    if len(sk.handlers_all) != len(observers):
+        sk_problems.append('expected %d new_observer(..) calls, found %d' % (len(observers), len(sk.handlers_all)))
+    want_subs = sc.get('inner_subscribes', len(observers))
+    if sk.n_inner_subscribe != want_subs:
+        sk_problems.append('expected %d inner_subscribe calls, found %d' % (want_subs, sk.n_inner_subscribe))
+    # prepare-before-subscribe: all new_observer calls textually precede the first inner_subscribe
+    body = sk.body_group
+    no = [p[i].start for p, i, g in rxprep.find_calls(body.kids, 'new_observer')]
+    isub = [p[i].start for p, i, g in rxprep.find_calls(body.kids, 'inner_subscribe')]
+    if no and isub and max(no) > min(isub) and not sc.get('allow_late_registration'):
+        sk_problems.append('an observer is registered after a source has already been subscribed')
+    for c in cells:
+        if c not in sk.cells and c not in sk.outer_cells:
+            sk_problems.append('state cell `%s` not found' % c)
+    for c in sk.cells:
+        if c not in cells:
+            sk_problems.append('state cell `%s` is not covered by the contract' % c)
+    allowed_unknown = sc.get('allow_statements', [])
+    unknown = [u for u in sk.unknown if not any(re.sub(r'\s+', '', a) in re.sub(r'\s+', '', u) for a in allowed_unknown)]
+    if unknown:
+        sk_problems.append('unrecognised statements in the create-closure: %r' % unknown)
+    for name, txt in sk.outer_lets.items():
+        if not re.fullmatch(r'let\s+(mut\s+)?\w+\s*=\s*self\s*\.\s*\w+\s*(\.\s*clone\s*\(\s*\))?', txt.strip()):
+            sk_problems.append('unrecognised statement in execute before create: `%s`' % txt)
+    if len(sk.handlers_all) != len(observers):
+        raise UnitError('skeleton', '; '.join(sk_problems))
+    all_cells = list(cells.keys())
+    helper_sigs = {h: all_cells + list(captures.keys()) + ['sctl'] for h in sk.helpers}
+    fns, twins, meta = [], [], []
+    names = ['next', 'error', 'complete']
+
+    def emit(fn_name, cl, ptypes, hc, extra_params=None, is_helper=False):
+        try:
+            ex = rxprep.rewrite_body(cl, sk, src, op, captures, helper_sigs)
+        except NotExtractable as e:
+            raise UnitError('not_extractable', '%s: %s' % (fn_name, e))
+        pn = [p for p, _ in ex.params]
+        def subst(t):
+            t = t.replace('$serial', pn[0]) if pn else t
+            if len(pn) > 1:
+                t = t.replace('$x', pn[1]).replace('$e', pn[1])
+            return t
+        params = ['%s: &mut %s' % (c, cells[c]) for c in all_cells] + ['%s: %s' % (c, t) for c, t in captures.items()]
+        params += ['sctl: &mut SctlModel<%s>' % tout] + ['%s: %s' % (p, ptypes[k]) for k, p in enumerate(pn)]
+        if not is_helper:
+            params += ['Ghost(h): Ghost<%s>' % hist_t] + list(extra_params or []) + [subst(g) for g in sc.get('ghost_params', [])]
+        req = ['old(sctl).wf()'] + ([] if is_helper else [subst(x) for x in sc.get('requires_all', [])]) + [subst(x) for x in hc.get('requires', [])]
+        ens = ['step_safe(old(sctl), final(sctl))'] + [subst(x) for x in hc.get('ensures', [])]
+        body_txt = insert_loop_invariants(ex.text, [subst(x) for x in hc.get('invariants', [])], hc.get('for_names'))
+        header = '// extracted: %s chars %d..%d (line %d) sha256=%s\n// replacements: %s\n' % (
+            sc['file'], ex.span[0], ex.span[1], rxprep.line_of(src, ex.span[0]), ex.sha256, json.dumps(ex.replacements))
+        ret = hc.get('returns')
+        if ret:
+            ens = [subst(x) for x in hc.get('ensures', [])]   # a value-returning helper: its own contract only
+        f = header + 'fn %s(%s)%s\n    requires\n%s    ensures\n%s{\n' % (fn_name, ', '.join(params), (' -> (r: %s)' % ret) if ret else '', _fmt_list(req), _fmt_list(ens))
+        if hc.get('proof_pre'):
+            f += '    proof { %s }\n' % subst(hc['proof_pre'])
+        if ret:
+            f += '    let r: %s = /*BEGIN-EXTRACTED*/ %s /*END-EXTRACTED*/;\n' % (ret, body_txt)
+        else:
+            f += '    let _unit: () = /*BEGIN-EXTRACTED*/ %s /*END-EXTRACTED*/;\n' % body_txt
+        if hc.get('proof'):
+            f += '    proof { %s }\n' % subst(hc['proof'])
+        f += '    r\n}\n' if ret else '}\n'
+        fns.append(f)
+        twins.append('fn %s_twin(%s)%s\n    requires\n%s    ensures false,\n{\n%s}\n' % (fn_name, ', '.join(params), (' -> (r: %s)' % ret) if ret else '', _fmt_list(req), ('    arbitrary_value()\n' if ret else '')))
+        meta.append({'fn': fn_name, 'file': sc['file'], 'line': rxprep.line_of(src, ex.span[0]), 'span': list(ex.span),
+                     'sha256': ex.sha256, 'replacements': ex.replacements, 'loops': ex.loops})
+
+    for k, ob in enumerate(observers):
+        cls = sk.handlers_all[k]
+        item_t = ob.get('item', 'Item')
+        pt = {'next': ['i32', item_t], 'error': ['i32', 'RxError'], 'complete': ['i32']}
+        for which, cl in zip(names, cls):
+            hc = ob.get(which, {})
+            emit('%s_%s_%s' % (op, ob['name'], which), cl, pt[which], hc)
+    for hname, cl in sk.helpers.items():
+        hc = sc.get('helper', {}).get(hname)
+        if hc is None:
+            if hname in sc.get('ignore_helpers', []):
+                continue
+            sk_problems.append('helper closure `%s` has no contract' % hname)
+            continue
+        emit('%s_%s' % (op, hname), cl, hc['param_types'], hc, is_helper=True)
+    # init
+    ic = sc.get('init', {})
+    lets = []
+    for c in all_cells:
+        init = (sk.cells.get(c) or (sk.outer_cells.get(c), 0))[0]
+        lets.append('    let %s: %s = /*BEGIN-EXTRACTED*/ %s /*END-EXTRACTED*/;\n' % (c, cells[c], init))
+    fn_names = [m['fn'] for m in meta]
+    if all_cells:
+        ret_t = '(' + ', '.join(cells[c] for c in all_cells) + (',' if len(all_cells) == 1 else '') + ')'
+        init_fn = 'fn %s_init(%s) -> (r: %s)\n    requires\n%s    ensures\n%s{\n%s    (%s)\n}\n' % (
+            op, ', '.join('%s: %s' % (c, t) for c, t in captures.items() if not t.startswith('&mut')), ret_t,
+            _fmt_list(ic.get('requires', [])), _fmt_list(ic.get('ensures', [])), ''.join(lets),
+            ', '.join(all_cells) + (',' if len(all_cells) == 1 else ''))
+        fns.insert(0, init_fn)
+        fn_names.append('%s_init' % op)
+    prelude = open(os.path.join(VERIF, 'models', 'prelude.rs')).read()
+    text = prelude + '\nverus! {\n// ---- specification (contracts/%s) ----\n%s\n// ---- extracted from /repo ----\n%s\n} // verus!\nfn main() {}\n' % (
+        os.path.basename(sidecar_path), sc.get('spec', ''), '\n'.join(fns))
+    twin_text = prelude + '\nverus! {\n%s\n%s\n} // verus!\nfn main() {}\n' % (sc.get('spec', ''), '\n'.join(twins))
+    return {'op': op, 'text': text, 'twins': twin_text, 'facts': skeleton_facts(sk, sc, src), 'skeleton_problems': sk_problems,
+            'outer_cells': list(sk.outer_cells), 'extracted': meta, 'props': sc.get('props', []), 'known_fail': {},
+            'fn_names': fn_names, 'twin_names': [m['fn'] + '_twin' for m in meta]}
+
+
 def gen_unit(sidecar_path: str, repo: str) -> dict:
     sc = load_sidecar(sidecar_path)
     if sc.get('kind') == 'source':
         return gen_source_unit(sc, sidecar_path, repo)
+    if sc.get('kind') == 'multi':
+        return gen_multi_unit(sc, sidecar_path, repo)
     op = sc['op']
     src_path = os.path.join(repo, sc['file'])
     if not os.path.exists(src_path):
